@@ -126,6 +126,40 @@ def handleTraverse (j : Json) : Except String Json := do
   | .error, "error" => pure (Json.mkObj [("diff", strs []), ("mon", strs [])])
   | m, k => pure (Json.mkObj [("diff", strs [s!"outcome: model={m.kind} impl={k}"]), ("mon", strs [])])
 
+/-- function-level record: one mechatronics operation -/
+def handleMech (j : Json) : Except String Json := do
+  let m : Mech ← getField j "mech"
+  let fn : String ← getField j "fn"
+  let pre : Energy ← getField j "pre"
+  let post : Energy ← getField j "post"
+  let dt : Nat ← optField j "dt" 0
+  let route : Route ← optField j "route" []
+  let electric : Bool ← optField j "electric" true
+  let rate : Rat ← optField j "rate" 0
+  let model : Energy := match fn with
+    | "consume" => m.consume pre route
+    | "idle" => m.idle pre dt
+    | _ => m.addEnergy pre electric rate dt
+  let fl (e : Energy) : Flat := [("level", .q e.level), ("gained", .q e.gained), ("expended", .q e.expended)]
+  let d := diffFlat (fl model) (fl post)
+  let tol := absTol (max (ratAbs post.level) (max (ratAbs post.gained) (ratAbs post.expended)))
+  let lcOf (e : Energy) : Rat := e.level - e.gained + e.expended
+  let mon : List String :=
+    (if 0 ≤ post.level + tol && post.level ≤ m.capacity + tol then [] else [s!"C04/bounds| level {Val.show (.q post.level)} outside [0, capacity]"]) ++
+    (if ratAbs (lcOf post - lcOf pre) ≤ tol then [] else ["C04/ledger| level − gained + expended changed"]) ++
+    (if post.gained + tol < pre.gained || post.expended + tol < pre.expended then ["C04/totals-decrease| a running total decreased"] else []) ++
+    (match fn with
+     | "consume" =>
+       if route.any (fun l => l.dist > 0) && pre.level > 0 && !(post.expended > pre.expended) then
+         ["C04/no-expenditure| driving a positive distance expended nothing"] else []
+     | "idle" =>
+       if dt > 0 && pre.level > 0 && !(post.expended > pre.expended) then ["C04/no-expenditure| idling a positive time expended nothing"] else []
+     | _ =>
+       let bound : Rat := match m.kind with | .bev => rate * dt * (1 / 3600) | .ice => rate * dt
+       (if post.level + tol < pre.level then ["C04/charge-lowered| charging lowered the level"] else []) ++
+       (if post.level - pre.level > bound + absTol bound then [s!"C04/charge-exceeds-plug| charging added {Val.show (.q (post.level - pre.level))}, the plug delivers at most {Val.show (.q bound)} in this step"] else []))
+  pure (Json.mkObj [("diff", strs d), ("mon", strs mon)])
+
 structure CollSnap where
   ents : List (Nat × Cell)
   loc : CollDict
@@ -195,6 +229,10 @@ def handle (st : DState) (line : String) : DState × Json :=
     | "apply" | "update" | "tick" | "pre" =>
       match handlePhase st op j with
       | .ok (l, r) => ({ st with ledger := l }, withId r)
+      | .error e => (st, withId (Json.mkObj [("error", Json.str e)]))
+    | "mech" =>
+      match handleMech j with
+      | .ok r => (st, withId r)
       | .error e => (st, withId (Json.mkObj [("error", Json.str e)]))
     | "stack" =>
       match (do
